@@ -14,36 +14,30 @@ import (
 	"verifh/wl/reg"
 )
 
-// FuzzTarget is one catalogued entry point with its valid seed artefacts.
-type FuzzTarget struct {
-	Name  string
-	Seeds [][]byte
-	// F hands hostile bytes to the entry point (and, when they are accepted, to every accessor behind it). Inputs that
-	// declare a password-KDF work factor beyond the bound of the plan's assumptions are skipped (returns false).
-	F func(b []byte) bool
-}
-
-// FuzzTargets builds the seed world of the given VERIF_SEED and returns the catalogue in its fixed order.
-func FuzzTargets(seed uint64) ([]FuzzTarget, error) {
+// FuzzTargets builds the seed world of the given VERIF_SEED and returns the catalogue in its fixed order: one target
+// per entry point, seeded with its valid artefacts. F hands hostile bytes to the entry point (and, when they are
+// accepted, to every accessor behind it); a panic or fault of the library is the signal. Inputs above the plan's size
+// bound or declaring a password-KDF work factor beyond the bound of the plan's assumptions are skipped.
+func FuzzTargets(seed uint64) ([]mon.FuzzTarget, error) {
 	w, err := buildWorld(seed)
 	if err != nil {
 		return nil, err
 	}
-	var out []FuzzTarget
+	var out []mon.FuzzTarget
 	for _, e := range catalogue(w) {
 		e := e
-		t := FuzzTarget{Name: e.name}
+		t := mon.FuzzTarget{Name: e.name}
 		for _, sn := range e.seeds {
 			t.Seeds = append(t.Seeds, append([]byte{}, w.get(sn).data...))
 		}
-		t.F = func(b []byte) bool {
+		t.F = func(b []byte) {
 			if len(b) > 1<<17 {
-				return false // the plan bounds inputs at 128 KiB
+				return // the plan bounds inputs at 128 KiB
 			}
 			if e.kdf && !workOK(b) {
-				return false
+				return
 			}
-			return e.f(b)
+			e.f(b)
 		}
 		out = append(out, t)
 	}
